@@ -287,6 +287,10 @@ func (t *Tool) Kind(id, a int64) interface{} {
 	return a
 }
 
+// Note takes anything, also a pointer to a fact or to a part of one, and does nothing: handing a
+// fact to a method is not an announcement that it changed.
+func (t *Tool) Note(v interface{}) { t.enter("Note") }
+
 // KindOf reports the dynamic kind and the value it was given (constants that look alike in
 // print - "7" and 7, "true" and true - must arrive as what they are).
 func (t *Tool) KindOf(v interface{}) string {
